@@ -8,324 +8,7 @@
 //         message values were disclosed, which telegrams were put on the bus and the poll priorities afterwards.
 //   sk    a DataSink test subclass per world and configured sink user: notifyUpdate / find / findAll with its levels.
 // No ebusd code lives here: the fake transport, the scripted slave and the client side are test scaffolding only.
-#include "vf.h"
-#include <map>
-#include <deque>
-#include <sstream>
-#include <fstream>
-#include <algorithm>
-#include "ebusd/main.h"
-#include "ebusd/mainloop.h"
-#include "ebusd/bushandler.h"
-#include "ebusd/scan.h"
-#include "ebusd/request.h"
-#include "ebusd/datahandler.h"
-#include "lib/ebus/protocol_direct.h"
-#include "lib/ebus/device_trans.h"
-#include "lib/ebus/transport.h"
-#include "lib/ebus/message.h"
-#include "lib/utils/log.h"
-
-using namespace ebusd;
-using std::string;
-using std::vector;
-
-// ---------------------------------------------------------------------------------------------------------------------
-// virtual wall clock for time(): stands still unless the harness advances it (cache ages become controlled inputs; the
-// periodic tasks of MainLoop::run never fire).  clockGettime stays real: it is only used for condition-variable waits.
-static volatile time_t g_now = 1700000000;
-extern "C" time_t time(time_t* t) { time_t n = g_now; if (t) *t = n; return n; }
-
-// ---------------------------------------------------------------------------------------------------------------------
-// minimal JSON reader for the case files written by TLC (objects, arrays, ints, strings)
-struct JV {
-  enum T { NUL, INT, STR, ARR, OBJ } t = NUL;
-  long i = 0; string s; vector<JV> a; std::map<string, JV> o;
-  const JV& operator[](const char* k) const { static JV nul; auto it = o.find(k); return it == o.end() ? nul : it->second; }
-  const JV& operator[](size_t k) const { return a[k]; }
-  size_t size() const { return a.size(); }
-};
-struct JP {
-  const char* p;
-  void ws() { while (*p == ' ' || *p == '\t' || *p == '\n' || *p == '\r') p++; }
-  JV val() {
-    ws(); JV v;
-    if (*p == '{') { p++; v.t = JV::OBJ; ws(); if (*p == '}') { p++; return v; }
-      while (true) { ws(); JV k = val(); ws(); if (*p != ':') fail(); p++; v.o[k.s] = val(); ws(); if (*p == ',') { p++; continue; } if (*p == '}') { p++; break; } fail(); }
-    } else if (*p == '[') { p++; v.t = JV::ARR; ws(); if (*p == ']') { p++; return v; }
-      while (true) { v.a.push_back(val()); ws(); if (*p == ',') { p++; continue; } if (*p == ']') { p++; break; } fail(); }
-    } else if (*p == '"') { p++; v.t = JV::STR; while (*p != '"') { if (*p == '\\') p++; if (!*p) fail(); v.s.push_back(*p++); } p++;
-    } else if (*p == '-' || (*p >= '0' && *p <= '9')) { v.t = JV::INT; char* e; v.i = strtol(p, &e, 10); p = e;
-    } else if (!strncmp(p, "true", 4)) { v.t = JV::INT; v.i = 1; p += 4;
-    } else if (!strncmp(p, "false", 5)) { v.t = JV::INT; v.i = 0; p += 5;
-    } else if (!strncmp(p, "null", 4)) { p += 4;
-    } else fail();
-    return v;
-  }
-  void fail() { fprintf(stderr, "HARNESS: bad json near: %.40s\n", p); exit(2); }
-};
-static vector<JV> readNdjson(const char* path) {
-  std::ifstream f(path); if (!f) { perror(path); exit(2); }
-  vector<JV> r; string line;
-  while (std::getline(f, line)) { if (line.empty()) continue; JP p{line.c_str()}; r.push_back(p.val()); }
-  return r;
-}
-static string codes(const JV& v) { string s; for (auto& c : v.a) s.push_back(static_cast<char>(c.i)); return s; }
-
-// ---------------------------------------------------------------------------------------------------------------------
-// the fake transport: an idle bus (SYN whenever nothing else is pending), echo of everything written, and a scripted
-// slave at any slave address that ACKs a complete master telegram and answers with the data configured for its id.
-struct Telegram { vector<uint8_t> bytes; };  // unescaped QQ ZZ PB SB NN DD.. (without CRC)
-class FakeTransport : public Transport {
- public:
-  FakeTransport() : Transport("fake", 0), m_open(false), m_phase(0) {}
-  string getTransportInfo() const override { return "fake"; }
-  result_t open() override { m_open = true; return m_listener ? m_listener->notifyTransportStatus(true) : RESULT_OK; }
-  void close() override { m_open = false; }
-  bool isValid() override { return m_open; }
-  result_t write(const uint8_t* data, size_t len) override {
-    for (size_t i = 0; i < len; i++) onWrite(data[i]);
-    return RESULT_OK;
-  }
-  result_t read(unsigned int timeout, const uint8_t** data, size_t* len) override {
-    if (m_rx.empty()) { m_rx.push_back(SYN); m_cur.clear(); m_phase = 0; m_idleSyn++; }
-    m_buf.assign(m_rx.begin(), m_rx.end());
-    *data = m_buf.data(); *len = m_buf.size();
-    return RESULT_OK;
-  }
-  void readConsumed(size_t len) override { while (len-- && !m_rx.empty()) m_rx.pop_front(); }
-  result_t openInternal() override { return RESULT_OK; }
-
-  // answer data (DD.. of the slave part) by master "PB SB ID.." key
-  // traffic of other participants that ebusd only listens to (already escaped wire bytes)
-  void feed(const vector<uint8_t>& wire) { for (uint8_t b : wire) m_rx.push_back(b); }
-  bool pending() const { return !m_rx.empty(); }
-  std::map<vector<uint8_t>, vector<uint8_t>> m_answers;
-  vector<vector<uint8_t>> m_written;   // every complete master telegram seen (unescaped, without CRC)
-  size_t m_writtenBytes = 0;           // every byte ebusd asked the transport to write
-  size_t m_idleSyn = 0;
-
- private:
-  static void esc(std::deque<uint8_t>* q, uint8_t b) {
-    if (b == ESC) { q->push_back(ESC); q->push_back(0x00); } else if (b == SYN) { q->push_back(ESC); q->push_back(0x01); } else q->push_back(b);
-  }
-  void onWrite(uint8_t b) {
-    m_writtenBytes++;
-    m_rx.push_back(b);  // echo
-    if (b == SYN) { m_cur.clear(); m_phase = 0; return; }
-    if (m_phase != 0) return;  // ACK of ebusd after the slave answer
-    m_cur.push_back(b);
-    // unescape what was written so far
-    vector<uint8_t> u; bool pend = false;
-    for (uint8_t c : m_cur) { if (pend) { u.push_back(c == 0 ? ESC : SYN); pend = false; } else if (c == ESC) pend = true; else u.push_back(c); }
-    if (pend || u.size() < 6 || u.size() != 5u + u[4] + 1u) return;
-    // complete master telegram incl. CRC
-    MasterSymbolString m; for (size_t i = 0; i + 1 < u.size(); i++) m.push_back(u[i]);
-    bool crcOk = m.calcCrc() == u.back();
-    m_written.push_back(vector<uint8_t>(u.begin(), u.end() - 1));
-    m_phase = 1;
-    uint8_t zz = u[1];
-    if (zz == BROADCAST) return;
-    m_rx.push_back(crcOk ? ACK : NAK);
-    if (!crcOk) { m_phase = 0; m_cur.clear(); return; }
-    if (isMaster(zz)) return;
-    vector<uint8_t> key(u.begin() + 2, u.begin() + 4);
-    vector<uint8_t> dd;
-    for (size_t n = u[4]; ; n--) {  // longest id prefix wins
-      vector<uint8_t> k = key; k.insert(k.end(), u.begin() + 5, u.begin() + 5 + n);
-      auto it = m_answers.find(k);
-      if (it != m_answers.end()) { dd = it->second; break; }
-      if (n == 0) break;
-    }
-    SlaveSymbolString s; s.push_back(static_cast<symbol_t>(dd.size())); for (uint8_t d : dd) s.push_back(d);
-    for (size_t i = 0; i < s.size(); i++) esc(&m_rx, s[i]);
-    esc(&m_rx, s.calcCrc());
-  }
-  bool m_open;
-  int m_phase;
-  std::deque<uint8_t> m_rx;
-  vector<uint8_t> m_buf, m_cur;
-};
-
-// ---------------------------------------------------------------------------------------------------------------------
-namespace ebusd {
-struct VerifAccess {
-  static result_t send(DirectProtocolHandler* h, unsigned int* to, symbol_t* sym, struct timespec* t) { return h->handleSend(to, sym, t); }
-  static result_t recv(DirectProtocolHandler* h, unsigned int to, bool sending, symbol_t sym, struct timespec* t) { return h->handleReceive(to, sending, sym, t); }
-  static bool ready(DirectProtocolHandler* h) { return h->m_state == bs_ready; }
-  static bool finished(ProtocolHandler* h, BusRequest* r) { return h->m_finishedRequests.remove(r, false); }
-  static UserList* users(MainLoop* m) { return &m->m_userList; }
-};
-}  // namespace ebusd
-
-// The real DirectProtocolHandler; only the hand-over to the bus thread is replaced: instead of blocking until another
-// thread has processed the request, the caller itself steps handleSend/handleReceive exactly as run() does.
-class StepHandler : public DirectProtocolHandler {
- public:
-  StepHandler(const ebus_protocol_config_t config, Device* device, ProtocolListener* listener)
-    : DirectProtocolHandler(config, device, listener), m_queued(0) {}
-  void step() {
-    unsigned int recvTimeout = 0; symbol_t sentSymbol = ESC; struct timespec sentTime;
-    result_t result = VerifAccess::send(this, &recvTimeout, &sentSymbol, &sentTime);
-    bool sent = result == RESULT_CONTINUE;
-    do {
-      if (result >= RESULT_OK) result = VerifAccess::recv(this, recvTimeout, sent, sentSymbol, &sentTime);
-      recvTimeout = 0; sent = false;
-    } while (result == RESULT_CONTINUE);
-  }
-  result_t addRequest(BusRequest* request, bool wait) override {
-    m_queued++;
-    result_t r = ProtocolHandler::addRequest(request, false);
-    if (r != RESULT_OK || !wait) return r;
-    for (int i = 0; i < 2000; i++) {
-      if (VerifAccess::finished(this, request)) {
-        for (int j = 0; j < 4 && !VerifAccess::ready(this); j++) step();  // let the handler release the bus (final SYN) within this command
-        return RESULT_OK;
-      }
-      step();
-    }
-    fprintf(stderr, "HARNESS: request did not finish\n"); exit(2);
-  }
-  size_t m_queued;  // BusRequests handed to the protocol layer
-};
-
-// ---------------------------------------------------------------------------------------------------------------------
-// a data sink as the MQTT/KNX handlers are: levels taken from the UserInfo for a configured user name
-class TestSink : public DataSink {
- public:
-  TestSink(const UserInfo* ui, const string& user) : DataSink(ui, user, false) {}
-  void startHandler() override {}
-  int updated(Message* m) { auto it = m_updatedMessages.find(m->getKey()); return it == m_updatedMessages.end() ? 0 : it->second; }
-  const string& levels() const { return m_levels; }
-};
-
-// ---------------------------------------------------------------------------------------------------------------------
-struct Slot { string kind, circuit, name, level; vector<uint8_t> id; uint8_t value; Message* msg; };
-
-struct World {
-  vector<Slot> slots;
-  MessageMap* messages = nullptr; ScanHelper* scan = nullptr; BusHandler* bus = nullptr; StepHandler* proto = nullptr;
-  FakeTransport* tr = nullptr; MainLoop* loop = nullptr; Queue<Request*>* queue = nullptr;
-  string aclPath;
-  ~World() {
-    if (loop) { loop->shutdown(); delete loop; }
-    delete queue;
-    delete proto;  // deletes device and transport
-    delete bus; delete messages; delete scan;  // same order as cleanup() in main.cpp
-  }
-};
-
-static const char* userName(long n) { return n == 1 ? "u1" : n == 2 ? "u2" : n == 3 ? "ux" : ""; }
-static const char* secretOf(long n) { return n == 1 ? "s1" : n == 2 ? "s2" : n == 3 ? "sd" : n == 9 ? "bad" : ""; }
-
-static World* makeWorld(const JV& w, const string& dir) {
-  World* W = new World();
-  // ---- ACL file + default levels
-  string dsrc = w["dsrc"].s, dl = codes(w["d"]);
-  W->aclPath = dir + "/acl.csv";
-  {
-    std::ofstream f(W->aclPath.c_str());
-    f << "# name,secret,levels\n";  // the first line of an ACL file names the columns (comment = default columns)
-    if (dsrc == "acl") { f << "*," << secretOf(3); string l = dl; std::replace(l.begin(), l.end(), ';', ','); f << "," << l << "\n"; }
-    for (auto& u : w["users"].a) {
-      string l = codes(u["l"]);
-      if (u["sep"].i == 1) std::replace(l.begin(), l.end(), ';', ',');  // one level per column instead of one column
-      f << userName(u["n"].i) << "," << secretOf(u["n"].i) << "," << l << "\n";
-    }
-  }
-  static string s_acl, s_lvl;  // options keep pointers
-  s_acl = "--aclfile=" + W->aclPath;
-  string dopt = dl; std::replace(dopt.begin(), dopt.end(), ';', ',');
-  s_lvl = "--accesslevel=" + dopt;
-  vector<char*> argv;
-  argv.push_back(const_cast<char*>("ebusd"));
-  argv.push_back(const_cast<char*>(s_acl.c_str()));
-  if (dsrc == "opt") argv.push_back(const_cast<char*>(s_lvl.c_str()));
-  argv.push_back(const_cast<char*>("--pollinterval=0"));
-  argv.push_back(const_cast<char*>("--updatecheck=off"));
-  argv.push_back(const_cast<char*>("-f"));
-  static struct options opt;
-  if (parse_main_args(static_cast<int>(argv.size()), argv.data(), nullptr, &opt) != 0) { fprintf(stderr, "HARNESS: bad args\n"); exit(2); }
-  // ---- messages
-  W->messages = new MessageMap(false, "", false);  // many maps per process: the shared ident field set must survive
-  W->scan = new ScanHelper(W->messages, "/nonexistent", "/nonexistent/", "", "", nullptr, false);
-  W->messages->setResolver(W->scan);
-  std::ostringstream csv;
-  size_t k = 0;
-  for (auto& m : w["msgs"].a) {
-    Slot s; s.kind = m["k"].s; s.circuit = m["c"].s; s.name = m["n"].s; s.level = codes(m["lv"]);
-    k++;
-    bool wr = s.kind == "w";
-    s.id = {0xb5, 0x09, static_cast<uint8_t>(wr ? 0x0e : 0x0d), static_cast<uint8_t>(k)};
-    s.value = static_cast<uint8_t>(0x10 + k);
-    char idhex[16]; snprintf(idhex, sizeof idhex, "%02x%02x", s.id[2], s.id[3]);
-    csv << s.kind << "," << s.circuit << (s.level.empty() ? "" : "#") << s.level << "," << s.name << ",,,08,b509," << idhex << ",v,"
-        << (wr ? "m" : "s") << ",UCH\n";
-    W->slots.push_back(s);
-  }
-  std::istringstream in("#\n" + csv.str());  // first line is not used for determining column names
-  string err;
-  result_t r = W->messages->readFromStream(&in, "world.csv", time(nullptr), false, nullptr, &err);
-  if (r != RESULT_OK) { fprintf(stderr, "HARNESS: csv load failed: %s %s\n%s", getResultCode(r), err.c_str(), csv.str().c_str()); exit(2); }
-  // ---- bus side
-  W->bus = new BusHandler(W->messages, W->scan, opt.pollInterval);
-  ebus_protocol_config_t config = {
-    .device = "fake", .noDeviceCheck = true, .readOnly = false, .extraLatency = 0, .ownAddress = opt.address,
-    .answer = false, .busLostRetries = opt.acquireRetries, .failedSendRetries = opt.sendRetries,
-    .busAcquireTimeout = opt.acquireTimeout, .slaveRecvTimeout = opt.receiveTimeout, .lockCount = opt.masterCount,
-    .generateSyn = false, .initialSend = false,
-  };
-  W->tr = new FakeTransport();
-  PlainDevice* dev = new PlainDevice(W->tr);
-  W->proto = new StepHandler(config, dev, W->bus);
-  W->bus->setProtocol(W->proto);
-  W->proto->open();
-  // ---- resolve the message objects and script the slave
-  for (auto& s : W->slots) {
-    std::deque<Message*> all;
-    W->messages->findAll(s.circuit, s.name, "*", true, true, true, true, true, false, 0, 0, false, &all);
-    s.msg = nullptr;
-    for (Message* m : all) {
-      bool pas = m->isPassive(), wr = m->isWrite();
-      if ((s.kind == "u") == pas && (s.kind == "w") == (wr && !pas) && m->getLevel() == s.level && m->getCircuit() == s.circuit) s.msg = m;
-    }
-    if (!s.msg) { fprintf(stderr, "HARNESS: message %s/%s not found after load\n", s.circuit.c_str(), s.name.c_str()); exit(2); }
-    if (s.kind != "w") W->tr->m_answers[s.id] = {s.value};
-  }
-  // passive messages have been seen on the bus before any client connects
-  for (auto& s : W->slots) {
-    if (s.kind != "u") continue;
-    MasterSymbolString m; m.push_back(0x10); m.push_back(0x08); m.push_back(s.id[0]); m.push_back(s.id[1]); m.push_back(2); m.push_back(s.id[2]); m.push_back(s.id[3]);
-    SlaveSymbolString sl; sl.push_back(1); sl.push_back(s.value);
-    W->proto->injectMessage(m, sl);
-    if (s.msg->getLastUpdateTime() == 0) { fprintf(stderr, "HARNESS: passive inject failed\n"); exit(2); }
-  }
-  // (injectMessage is meant for the time before the bus thread runs: the first SYN then resets the handler's buffers)
-  for (int i = 0; i < 8; i++) W->proto->step();  // a few SYN: signal acquired
-  if (!W->proto->hasSignal()) { fprintf(stderr, "HARNESS: no signal\n"); exit(2); }
-  // ---- the daemon
-  W->queue = new Queue<Request*>();
-  W->loop = new MainLoop(opt, W->bus, W->messages, W->scan, W->queue);
-  W->loop->start("mainloop");
-  return W;
-}
-
-// one client connection: like ebusd's Connection, one RequestImpl reused for all lines
-struct Client {
-  World* W; RequestImpl req;
-  explicit Client(World* w, bool http = false) : W(w), req(http) {}
-  string send(const string& line) {
-    if (!req.add(line.c_str())) { fprintf(stderr, "HARNESS: incomplete request\n"); exit(2); }
-    W->queue->push(&req);
-    string result;
-    req.waitResponse(&result);
-    return result;
-  }
-};
-
-static string hexOf(const vector<uint8_t>& v) { string s; char b[4]; for (uint8_t x : v) { snprintf(b, sizeof b, "%02x", x); s += b; } return s; }
-
-static string rtrim(string s) { while (!s.empty() && (s.back() == '\n' || s.back() == '\r' || s.back() == ' ')) s.pop_back(); return s; }
+#include "c16_daemon.h"
 
 // classify one response and extract which slot values it discloses
 struct Obs { string rc; vector<int> val, bus, pr; int queued; size_t bytes; string user; string raw; };
